@@ -378,6 +378,9 @@ def parts(tier):
                   rule="every label over {a,\",\\n,=,1,space,e-acute,CJK} up to length %d in 4 positions; each case = 5 layouts x 4 "
                        "encodings x 2 newlines x includeEmptyIntervals files written by the independent writer and opened" % L,
                   bounds={"label_length": L}, chunk=4),
+        InputPart("labels-unicode-forms", lambda: ((t, m, sk, "repr", False) for t, m, sk, _ in _c01.layer_unicode_forms()), check,
+                  rule="the %d non-NFC / case-folding-sensitive / canonically equivalent strings of C01 as labels and tier names in files written by the "
+                       "independent writer: read back code point for code point" % len(_c01.UNICODE_FORMS), bounds={}, chunk=2),
         InputPart("json-respellings", lambda: itertools.chain(gen_structure(), itertools.islice(gen_labels(2), 0, None, 7)), check_json_freedoms,
                   rule="all small structures and every 7th label case x both JSON schemas x %d re-spellings that RFC 8259 declares insignificant (members of "
                        "the top-level and tier objects reversed / sorted / rotated, indentation, backslash-u escapes, compact separators): the reader returns the "
